@@ -795,6 +795,26 @@ def Agent.writeToPair (a : Agent) (now : Nat) (id : Nat) (len : Nat) (stunLike :
     | none => (a, [.res "err:notfound"])
     | some p => if p.state != .succeeded then (a, [.res "err:notsucceeded"]) else a.writeVia now p len
 
+/-- `maxBufferSize`: `agent.buf.SetLimitSize(1000 * 1000)`. -/
+def rxLimit : Nat := 1000000
+
+/-- bytes the queued datagrams occupy in `packetio.Buffer`: each carries a 2-byte length header -/
+def rxUsed (rx : List Nat) : Nat := (rx.map (· + 2)).sum
+
+/-- `Buffer.Write` accepts a packet iff `size() + 2 + len(packet) ≤ limitSize` (no count limit is configured; the
+ring grows up to `limitSize + 1` bytes and keeps one byte free, which amounts to the same bound). -/
+def rxFits (rx : List Nat) (len : Nat) : Bool := rxUsed rx + 2 + len ≤ rxLimit
+
+/-- an accepted payload: queued for the reader, then credited to the selected pair (`UpdatePacketReceived`, only for
+`n > 0`) -/
+def Agent.enqueue (a : Agent) (len : Nat) : Agent :=
+  let a := { a with rx := a.rx ++ [len] }
+  if len > 0 then
+    match a.selected with
+    | some id => a.modPair id fun p => { p with pktRecv := p.pktRecv + 1, bytesRecv := p.bytesRecv + len }
+    | none => a
+  else a
+
 /-- non-STUN datagram arriving on local candidate `l` from `src`. -/
 def Agent.inboundData (a : Agent) (now : Nat) (l : Cand) (src : Nat) (len : Nat) : Agent × List Out :=
   let cached := a.caches.find? fun (lu, s, _) => lu == l.uid && s == src
@@ -805,14 +825,11 @@ def Agent.inboundData (a : Agent) (now : Nat) (l : Cand) (src : Nat) (len : Nat)
       | some r => ({ (a.seenRemoteRecv r.uid now) with caches := a.caches ++ [(l.uid, src, r.uid)] }, true)
       | none => (a, false)
   if !ok then (a, [])
-  else
-    let a := { a with rx := a.rx ++ [len] }
-    let a := if len > 0 then
-        match a.selected with
-        | some id => a.modPair id fun p => { p with pktRecv := p.pktRecv + 1, bytesRecv := p.bytesRecv + len }
-        | none => a
-      else a
-    (a, [])
+  -- `agent.buf.Write` fails with `packetio.ErrFull`: the datagram is dropped (the error is only logged) AFTER the
+  -- source was validated — the remote candidate's last-received time and the cache entry stay — and BEFORE the
+  -- selected pair is credited
+  else if !rxFits a.rx len then (a, [])
+  else (a.enqueue len, [])
 
 /-! ## The step function -/
 
